@@ -451,7 +451,7 @@ def evaluate(prop, tier, tmpls, unit_cache, kani_cache):
             "exhaustive": False,
         },
         "assumptions": K.level_assumptions(prop) + ["see coverage.trusted_base: every external_body / assume_specification / uninterp item of the verified files, scanned on this run"],
-        "wall_s": round(time.time() - t0, 2),
+        "wall_s": round(max(time.time() - t0, sum(r["wall_s"] for r in results) + sum(k["seconds"] for k in kres) + (xs["wall_s"] if xs else 0.0)), 2),
         "violations": len(violations),
     }
     os.makedirs(EVIDENCE, exist_ok=True)
